@@ -110,11 +110,16 @@ def gen_repl(rng: random.Random, clock: str, horizon=64):
 
 
 # ----------------------------------------------------------------------------- running the implementation
-def run_impl(cases: list[dict], nproc: int = 12, timeout: int = 900) -> list[dict]:
+def run_impl(cases: list[dict], nproc: int = 14, timeout: int = 900, batch: int | None = None) -> list[dict]:
+    """Run the cases on the implementation, in fresh interpreters, nproc at a
+    time; small batches handed out dynamically so a few slow cases (stop() from
+    a handler costs 1 s wall) do not pile up in one worker."""
     if not cases:
         return []
     nproc = max(1, min(nproc, len(cases)))
-    chunks = [cases[i::nproc] for i in range(nproc)]
+    if batch is None:
+        batch = max(8, min(60, len(cases) // (nproc * 4) or 1))
+    chunks = [cases[i:i + batch] for i in range(0, len(cases), batch)]
 
     def one(chunk):
         p = subprocess.run([C.PY, str(DRIVER)], input=json.dumps(chunk), capture_output=True, text=True,
@@ -124,11 +129,7 @@ def run_impl(cases: list[dict], nproc: int = 12, timeout: int = 900) -> list[dic
         return json.loads(p.stdout)
     with ThreadPoolExecutor(max_workers=nproc) as ex:
         outs = list(ex.map(one, chunks))
-    res = [None] * len(cases)
-    for k, chunk_out in enumerate(outs):
-        for j, o in enumerate(chunk_out):
-            res[k + j * nproc] = o
-    return res
+    return [o for chunk_out in outs for o in chunk_out]
 
 
 # ----------------------------------------------------------------------------- Coq emission
